@@ -745,6 +745,9 @@ class CompositeEnvelopeContainer:
             Other composite envelope container
         """
         assert isinstance(other, CompositeEnvelopeContainer)
+        # The moved product states belong to this container from now on
+        for product_state in other.states:
+            product_state.container = self
         self.states.extend(other.states)
         self.envelopes.extend(other.envelopes)
 
